@@ -16,7 +16,9 @@ case "$ID" in
   C01) TARGETS="c01_bytes c01_ops"; MAXLEN=65536 ;;
   C02) TARGETS="c02_shape"; MAXLEN=4096 ;;
   C05) TARGETS="c05_tape"; MAXLEN=3600 ;;
+  C04) TARGETS="c04_gsub"; MAXLEN=4096 ;;
   C11) TARGETS="c11_woff2"; MAXLEN=4096 ;;
+  C18) TARGETS="c18_type2"; MAXLEN=64 ;;
   C16) TARGETS="c16_glyf"; MAXLEN=2560 ;;
   *) exit 0 ;;
 esac
